@@ -8,7 +8,7 @@ for d in seeded/C*-*; do
   checks="$p $(python3 -c "import json;print(' '.join(json.load(open('seeded/also.json')).get('$s',[])))")"
   res=()
   for c in $checks; do
-    out=$(lib/seedtest.sh $d $c $TIER 2>&1 | grep RESULT)
+    out=$(SKIP_CONFIRM=${SKIP_CONFIRM:-1} lib/seedtest.sh $d $c $TIER 2>&1 | grep RESULT)
     case "$out" in *DETECTED*) res+=("$c:detected");; *MISSED*) res+=("$c:missed");; *) res+=("$c:${out##* }");; esac
   done
   python3 - "$d" "$TIER" "${res[@]}" <<'PY'
